@@ -719,6 +719,14 @@ def check_property(prop, tier, groups, propmeta, seed=0):
         }
         json.dump(rep, open(path, 'w'), indent=1)
         reproduced = bool(ws and ws.get('replay') and ws['replay'].get('verdict', '').startswith('reproduced'))
+        if g['mode'] == 'contracts' and all(o['desc'].startswith('unwinding assertion') for o in vi) and not reproduced:
+            # a loop WITHOUT a woven contract (e.g. a new loop in changed code): the obligation cannot be discharged, which is
+            # "undecided", not "violated" - unless the native search on the real code found a failing input (then it is reported)
+            print('UNDECIDED: property=%s group=%s loop without a loop contract (%s); bounded native search found no failing input' % (
+                prop, r['name'], ', '.join('%s:%s' % (os.path.basename(o['file']), o['line']) for o in vi[:3])))
+            if rc == 0:
+                rc = 2
+            continue
         for o in vi[:6]:
             print('  failed obligation [%s] %s (%s:%s in %s)' % (r['name'], o['desc'], os.path.basename(o['file']), o['line'], o['function']))
         print('VIOLATION property=%s replay=%s%s' % (prop, path, '' if reproduced else ' no-failing-input-found'))
